@@ -29,7 +29,7 @@ func (f fld) exp(a *big.Int, k *big.Int) *big.Int {
 	return new(big.Int).Exp(f.red(a), k, f.r)
 }
 func (f fld) expu(a *big.Int, k int) *big.Int { return f.exp(a, big.NewInt(int64(k))) }
-func (f fld) n(k int64) *big.Int           { return f.red(big.NewInt(k)) }
+func (f fld) n(k int64) *big.Int              { return f.red(big.NewInt(k)) }
 
 // horner evaluates the coefficient vector p (low degree first) at x.
 func (f fld) horner(p []*big.Int, x *big.Int) *big.Int {
